@@ -20,6 +20,133 @@ static void purge_event(int kind, void* addr, size_t len, int arg, int failed) {
 }
 static void install_purge_police(Exec&) { vf_set_event_fn(&purge_event); }
 
-static void gen_option_prefix(Gen&) {}
-static bool generate_special(const std::string&, Chooser&, uint64_t, Case&) { return false; }
-static bool execute_special(const std::string&, const Case&, Exec&) { return false; }
+// ---------------------------------------------------------------- C13: option vectors (pairwise covering array first, then random)
+struct OptDom { const char* name; std::vector<long> vals; };
+static const std::vector<OptDom> OPT_DOMS = {
+  { "purge_delay", { -1, 0, 1, 10 } }, { "purge_decommits", { 0, 1 } }, { "purge_extend_delay", { 0, 1 } }, { "eager_commit", { 0, 1 } },
+  { "eager_commit_delay", { 0, 1, 4 } }, { "arena_eager_commit", { 0, 1, 2 } }, { "disallow_arena_alloc", { 0, 1 } },
+  { "arena_reserve", { 32*1024, 64*1024, 1024*1024 } }, { "arena_purge_mult", { 1, 10 } }, { "abandoned_reclaim_on_free", { 0, 1 } },
+  { "abandoned_page_purge", { 0, 1 } }, { "target_segments_per_thread", { 0, 1, 2, 4 } }, { "max_segment_reclaim", { 0, 10, 100 } },
+  { "deprecated_page_reset", { 0, 1 } }, { "generic_collect", { 1, 100, 10000 } }, { "allow_large_os_pages", { 0, 2 } },
+};
+static std::vector<std::vector<int>> g_cover;   // rows of value indices
+static void build_cover() {
+  size_t n = OPT_DOMS.size(); std::set<std::tuple<int,int,int,int>> todo;
+  for (size_t i = 0; i < n; i++) for (size_t j = i + 1; j < n; j++) for (size_t a = 0; a < OPT_DOMS[i].vals.size(); a++) for (size_t b = 0; b < OPT_DOMS[j].vals.size(); b++) todo.insert({ (int)i, (int)a, (int)j, (int)b });
+  uint64_t s = 0xC0FFEE;
+  while (!todo.empty() && g_cover.size() < 200) {
+    std::vector<int> best; size_t bestc = 0;
+    for (int t = 0; t < 60; t++) {
+      std::vector<int> row(n); for (size_t i = 0; i < n; i++) row[i] = (int)(eng::splitmix64(s) % OPT_DOMS[i].vals.size());
+      if (t == 0) { auto f = *todo.begin(); row[std::get<0>(f)] = std::get<1>(f); row[std::get<2>(f)] = std::get<3>(f); }
+      size_t c = 0; for (size_t i = 0; i < n; i++) for (size_t j = i + 1; j < n; j++) if (todo.count({ (int)i, row[i], (int)j, row[j] })) c++;
+      if (c > bestc || best.empty()) { bestc = c; best = row; }
+    }
+    for (size_t i = 0; i < n; i++) for (size_t j = i + 1; j < n; j++) todo.erase({ (int)i, best[i], (int)j, best[j] });
+    g_cover.push_back(best);
+  }
+}
+static void gen_option_prefix(Gen& g, uint64_t idx) {
+  if (g_cover.empty()) build_cover();
+  for (size_t i = 0; i < OPT_DOMS.size(); i++) {
+    size_t vi = (idx < g_cover.size()) ? (size_t)g_cover[idx][i] : g.ch.pick(OPT_DOMS[i].vals.size());
+    if (idx >= g_cover.size() && g.ch.chance(1, 2)) continue;     // random vectors leave about half of the options at their default
+    g.out.push_back(Op("opt").s("name", OPT_DOMS[i].name).i("v", OPT_DOMS[i].vals[vi]));
+  }
+}
+// ---------------------------------------------------------------- C11: give-back at quiescence, no creep over repetitions
+struct Footprint { size_t mapped = 0, regions = 0, resident = 0, big_outside = 0, small_outside = 0, arena_resident = 0; uintptr_t first_big = 0; size_t first_big_len = 0; };
+static Footprint measure_footprint() {
+  Footprint f; static vf_region_t regs[8192]; size_t n = vf_regions(regs, 8192);
+  struct Ar { uintptr_t lo, hi; }; std::vector<Ar> ars;
+  for (int id = 1; id <= 64; id++) { size_t sz = 0; void* a = mi_arena_area((mi_arena_id_t)id, &sz); if (a == nullptr) break; ars.push_back({ (uintptr_t)a, (uintptr_t)a + sz }); }
+  for (size_t i = 0; i < n; i++) {
+    f.mapped += regs[i].len; f.regions++;
+    uintptr_t lo = regs[i].addr, hi = lo + regs[i].len; size_t inside = 0;
+    for (auto& a : ars) { uintptr_t l = std::max(lo, a.lo), h = std::min(hi, a.hi); if (l < h) inside += h - l; }
+    size_t outside = regs[i].len - inside;
+    if (inside == 0) { if (regs[i].len > 64*KiB) { f.big_outside++; if (!f.first_big) { f.first_big = lo; f.first_big_len = regs[i].len; } } else f.small_outside++; }
+    else if (outside > 64*MiB) { /* arena mapping with slack from alignment: fine */ }
+  }
+  f.resident = vf_resident_pages();
+  for (auto& a : ars) f.arena_resident += vf_resident_pages_in(a.lo, a.hi);
+  return f;
+}
+
+static void c11_event(int kind, void*, size_t, int, int) { if (g_exec) g_exec->count(C_OSCALLS); (void)kind; }
+
+static Case gen_c11(Chooser& ch) {
+  Profile pf; pf.min_ops = 6; pf.max_ops = 40; pf.w_heap = 3; pf.w_visit = 0; pf.w_verify = 0; pf.w_talloc = 4; pf.w_tfree = 3; pf.p_aligned = 25; pf.w_churn = 1;
+  Gen g(ch, pf); Case c;
+  // configuration
+  switch (ch.pick(4)) { case 0: break; case 1: c.push_back(Op("opt").s("name", "disallow_arena_alloc").u("v", 1)); break;
+    case 2: c.push_back(Op("opt").s("name", "arena_reserve").u("v", 64*1024)); break; default: c.push_back(Op("opt").s("name", "arena_reserve").u("v", 32*1024)); break; }
+  static const std::vector<long> pd = { 10, 10, 0, -1, 1 }; long d = ch.of(pd); if (d != 10) c.push_back(Op("opt").s("name", "purge_delay").i("v", d));
+  if (ch.chance(1, 5)) c.push_back(Op("opt").s("name", "eager_commit_delay").u("v", 0));
+  size_t reps = ch.chance(1, 2) ? 6 : (size_t)ch.range(4, 9);
+  c.push_back(Op("rep").u("n", reps));
+  // body: a workload shape + random history
+  unsigned shape = (unsigned)ch.pick(7);
+  auto big = [&](const char* f, size_t n, size_t a, int k) { for (int i = 0; i < k; i++) { int s = g.new_slot(); if (s < 0) return; Op op("alloc"); op.u("s", (uint64_t)s).s("f", f).u("n", n); if (a) op.u("a", a); op.u("nt", 1); g.out.push_back(op); g.note_alloc(s, 0, a ? a : 1, 0, false, 1); } };
+  switch (shape) {
+    case 0: break;                                                                                       // small / random only
+    case 1: big("malloc", (size_t)ch.range(64*KiB + 1, 4*MiB), 0, (int)ch.range(2, 12)); break;          // large pages
+    case 2: big("malloc", (size_t)ch.range(16*MiB + 1, 100*MiB), 0, (int)ch.range(1, 3)); break;         // huge / multi-segment
+    case 3: big("malloc_aligned", (size_t)ch.range(1, 8*MiB), (size_t)1 << ch.range(25, 27), (int)ch.range(1, 2)); break;   // aligned-huge
+    case 4: big("malloc", 8*MiB - 64*KiB, 0, (int)ch.range(130, 150)); break;                           // > 34 segments (beyond the first arena)
+    case 5: for (int t = (int)ch.range(33, 40); t > 0; t--) { int s = g.new_slot(); if (s < 0) break; g.out.push_back(Op("talloc").u("s", (uint64_t)s).u("k", 1).u("n", ch.range(1, 2000))); g.note_alloc(s, 0, 1, 0, false, -1); } break;   // > 32 exited threads
+    default: big("zalloc", (size_t)ch.range(16*MiB + 1, 40*MiB), 0, 1); big("malloc", (size_t)ch.range(64*KiB, MiB), 0, 4); break;
+  }
+  g.pf.big_ok = (shape != 4);
+  Case body = g.history();
+  for (auto& op : body) c.push_back(op);
+  c.push_back(Op("endrep"));
+  return c;
+}
+
+static void exec_c11(const Case& c, Exec& ex) {
+  ex.m.heaps[1].h = mi_heap_get_backing(); ex.m.heaps[1].alive = true; ex.m.def = 1;
+  mi_register_error(&hist_error_fun, nullptr); mi_register_output(&hist_output_fun, nullptr);
+  vf_set_event_fn(&c11_event);
+  size_t i = 0; long purge_delay = 10; bool decommits = true;
+  for (; i < c.size() && c[i].name != "rep"; i++) { ex.opi = (long)i; if (c[i].name == "opt") { if (c[i].str("name") == "purge_delay") purge_delay = (long)c[i].snum("v"); if (c[i].str("name") == "purge_decommits") decommits = c[i].snum("v") != 0; } ex.do_op(c[i]); }
+  if (i >= c.size()) { ex.finish(); return; }
+  size_t reps = c[i].num("n", 4); if (reps > 64) reps = 64; size_t b0 = i + 1, b1 = b0; while (b1 < c.size() && c[b1].name != "endrep") b1++;
+  std::vector<Footprint> fps; size_t os_maps_before = (size_t)vf_count(VF_MAP);
+  for (size_t r = 0; r < reps; r++) {
+    for (size_t k = b0; k < b1; k++) { ex.opi = (long)k; eng::g_cur_op = (long)k; int e0 = ex.mi_errors[0] + ex.mi_errors[1] + ex.mi_errors[2]; ex.do_op(c[k]);
+      if (ex.mi_errors[0] + ex.mi_errors[1] + ex.mi_errors[2] != e0) fail_now("mi-error", "op#%ld rep %zu: allocator reported an error (%d)", ex.opi, r, ex.last_err); }
+    // quiescence: free everything, release all heaps, forced collect
+    ex.verify_all("before-quiesce", true);
+    for (int s = 0; s < NSLOTS; s++) if (ex.m.slots[s].live) { Blk& b = ex.m.slots[s]; if (b.stranded) fail_now("harness", "stranded block in C11"); uint8_t* p = b.p; ex.model_remove(s, false); mi_free(p); }
+    for (int h = 2; h < NHEAPS; h++) if (ex.m.heaps[h].alive) { mi_heap_delete(ex.m.heaps[h].h); ex.m.heaps[h].alive = false; if (ex.m.def == h) ex.m.def = 1; }
+    if (ex.m.def != 1) { mi_heap_set_default(ex.m.heaps[1].h); ex.m.def = 1; }
+    mi_collect(true);
+    vf_clock_advance(200); mi_collect(true);    // lets delayed purges expire as well (quiescence is what is asserted, not timing)
+    fps.push_back(measure_footprint());
+  }
+  const Footprint& L = fps.back();
+  size_t os_maps = (size_t)vf_count(VF_MAP) - os_maps_before;
+  // Oracle A: nothing obtained directly from the OS is still mapped (arenas and <= 64 KiB bookkeeping maps excepted)
+  if (L.big_outside > 0) fail_now("os-region-still-mapped", "after free-all + mi_collect(true): %zu non-arena region(s) still mapped, first [%p,+%zu)", L.big_outside, (void*)L.first_big, L.first_big_len);
+  if (L.small_outside > 40) fail_now("os-small-regions-leaked", "after free-all + mi_collect(true): %zu small non-arena mappings remain", L.small_outside);
+  if (purge_delay >= 0 && decommits && L.arena_resident > 16) fail_now("arena-still-committed", "after free-all + mi_collect(true): %zu resident pages inside arenas (purge_delay=%ld)", L.arena_resident, purge_delay);
+  // Oracle B: no creep from one repetition to the next (two warm-up repetitions)
+  for (size_t r = 3; r < fps.size(); r++) {
+    if (fps[r].mapped > fps[r-1].mapped) fail_now("mapped-creep", "mapped bytes grew from repetition %zu to %zu: %zu -> %zu", r - 1, r, fps[r-1].mapped, fps[r].mapped);
+    if (fps[r].regions > fps[r-1].regions) fail_now("regions-creep", "mapping count grew from repetition %zu to %zu: %zu -> %zu", r - 1, r, fps[r-1].regions, fps[r].regions);
+    if (purge_delay >= 0 && decommits && fps[r].resident > fps[r-1].resident + 16) fail_now("resident-creep", "resident pages grew from repetition %zu to %zu: %zu -> %zu", r - 1, r, fps[r-1].resident, fps[r].resident);
+  }
+  ex.opi = (long)c.size(); ex.finish();
+  size_t arenas = 0; for (int id = 1; id <= 64; id++) { size_t sz; if (!mi_arena_area((mi_arena_id_t)id, &sz)) break; arenas++; }
+  ex.r.nontrivial = (os_maps > arenas) ? 1 : 0;     // at least one region came directly from the OS (not an arena reservation)
+}
+
+static bool generate_special(const std::string& mode, Chooser& ch, uint64_t, Case& out) {
+  if (mode == "C11") { out = gen_c11(ch); return true; }
+  return false;
+}
+static bool execute_special(const std::string& mode, const Case& c, Exec& ex) {
+  if (mode == "C11") { exec_c11(c, ex); return true; }
+  return false;
+}
